@@ -117,6 +117,17 @@ def addFilterF (k : Nat) (op : FOp) (arg : QArg) : QField → QField
 def addFilter (p : Path) (j k : Nat) (op : FOp) (arg : QArg) : Query → Query :=
   onQuery (modNode (modField j (addFilterF k op arg)) p)
 
+/-- Insert a count filter `@filter(op, arg)` as the `k`-th directive of a `@fold` edge (at the end
+when `k` is at least the number of fold directives); every other field is left unchanged. -/
+def addCountFilterF (k : Nat) (op : FOp) (arg : QArg) : QField → QField
+  | .edge nm ps (.fold fds) c => .edge nm ps (.fold (fds.take k ++ [FDir.countFilter op arg] ++ fds.drop k)) c
+  | fld => fld
+
+/-- **add a filter on a fold's count**: the `@fold` edge `j` of the node at `p` gets the extra
+directive `@transform(op: "count") @filter(op, arg)` at position `k` of its fold directives. -/
+def addCountFilter (p : Path) (j k : Nat) (op : FOp) (arg : QArg) : Query → Query :=
+  onQuery (modNode (modField j (addCountFilterF k op arg)) p)
+
 def setDepthF (d : Nat) : QField → QField
   | .edge nm ps (.recurse _) c => .edge nm ps (.recurse d) c
   | fld => fld
